@@ -5,6 +5,7 @@ go 1.23.0
 require (
 	github.com/blang/semver v3.5.1+incompatible
 	github.com/janelia-flyem/dvid v0.0.0
+	google.golang.org/protobuf v1.33.0
 )
 
 require (
@@ -77,7 +78,6 @@ require (
 	google.golang.org/api v0.114.0 // indirect
 	google.golang.org/genproto v0.0.0-20230410155749-daa745c078e1 // indirect
 	google.golang.org/grpc v1.56.3 // indirect
-	google.golang.org/protobuf v1.33.0 // indirect
 )
 
 replace github.com/janelia-flyem/dvid => /repo
